@@ -41,6 +41,8 @@ static const char* K_SCALEROFF = "copy-rederives-disabled-scaler"; // _optimize(
 static const char* K_RATTOL = "copy-drops-rational-tolerances";   // _rationalFeastol/_rationalOpttol/_rationalMaxscaleincr (caches of FEASTOL/OPTTOL/MAXSCALEINCR) are not copied by operator=
 static const char* K_CTOR = "copyctor-default-constructs-members"; // copy constructor default-constructs all members: _scalerGeo1/_scalerGeoequi lose their configuration (rounds, post-equilibration), counters stay unwritten
 
+static const char* K_TOL = "copy-shares-tolerances";   // operator=: _tolerances = rhs._tolerances shares ONE Tolerances object between source and copy
+
 static bool trace()
 {
    static int t = getenv("VF_TRACE") ? 1 : 0;
@@ -131,6 +133,18 @@ static Obs observe(SoPlex& s)
    for(int p = 0; p < SoPlex::INTPARAM_COUNT; p++) put(o, "par.int[" + std::to_string(p) + "]", s.intParam((SoPlex::IntParam) p));
    for(int p = 0; p < SoPlex::BOOLPARAM_COUNT; p++) put(o, "par.bool[" + std::to_string(p) + "]", s.boolParam((SoPlex::BoolParam) p));
    for(int p = 0; p < SoPlex::REALPARAM_COUNT; p++) put(o, "par.real[" + std::to_string(p) + "]", hx(s.realParam((SoPlex::RealParam) p)));
+   {
+      // the tolerance object behind the parameters (public accessor tolerances())
+      std::shared_ptr<Tolerances> t = s.tolerances();
+      put(o, "tol.epsilon", hx(t->epsilon()));
+      put(o, "tol.epsilonFactorization", hx(t->epsilonFactorization()));
+      put(o, "tol.epsilonUpdate", hx(t->epsilonUpdate()));
+      put(o, "tol.epsilonPivot", hx(t->epsilonPivot()));
+      put(o, "tol.feastol", hx(t->feastol()));
+      put(o, "tol.opttol", hx(t->opttol()));
+      put(o, "tol.floatingPointFeastol", hx(t->floatingPointFeastol()));
+      put(o, "tol.floatingPointOpttol", hx(t->floatingPointOpttol()));
+   }
    put(o, "names.starter", s.getStarterName());
    put(o, "names.simplifier", s.getSimplifierName());
    put(o, "names.scaler", s.getScalerName());
@@ -986,7 +1000,7 @@ static void countStatus(const std::string& pfx, const std::string& outcome)
 // ------------------------------------------------------------------ part det
 // two objects with the same history: everything except the component names (get*Name() report the transient internal
 // binding - e.g. "none" after a re-solve without preprocessing - which a copy legitimately re-derives from the parameters)
-static const char* TWIN_GROUPS = "lp par seed basis status sol ratlp ratsol stat";
+static const char* TWIN_GROUPS = "lp par tol seed basis status sol ratlp ratsol stat";
 static Verdict runDet(const Case& c)
 {
    Verdict v;
@@ -1038,17 +1052,25 @@ static Verdict runDet(const Case& c)
          e.count(std::string("excluded_known.") + K_SPARSE);
       }
       A->clearBasis();
+      bool sc2 = SoPlexVerifAccess::isRealLPScaled(*A);
       std::string ra2 = doSolve(*A);
       Obs oa2 = observe(*A);
       if(!skip)
       {
          // the second and the third solve both start from a cleared basis: no state may survive clearBasis()
          A->clearBasis();
+         bool sc3 = SoPlexVerifAccess::isRealLPScaled(*A);
          std::string ra3 = doSolve(*A);
          Obs oa3 = observe(*A);
          e.count("det.second_resolve_after_clearBasis");
          if(A->numIterations() >= 2) e.count("det.second_resolve_after_clearBasis.iters2+");
-         if(ra3 != ra2) v.fail("determinism: third solve after clearBasis() ends differently from the second solve after clearBasis(): " + ra2 + " vs " + ra3);
+         if(knownKey(K_FRESH) && sc2 != sc3)
+         {
+            // the second solve removed the persistent scaling (violations in the original space): the third solve
+            // scales again and thereby starts like the first solve of a fresh object (same root cause)
+            e.count(std::string("excluded_known.") + K_FRESH + ".rescaled_between_resolves");
+         }
+         else if(ra3 != ra2) v.fail("determinism: third solve after clearBasis() ends differently from the second solve after clearBasis(): " + ra2 + " vs " + ra3);
          else
          {
             std::string d = firstDiff(oa2, oa3, TWIN_GROUPS, "second", "third");
@@ -1076,12 +1098,20 @@ static Verdict runDet(const Case& c)
 }
 
 // ------------------------------------------------------------------ part copy
-static const char* EQ_GROUPS = "lp par basis status sol ratlp ratsol";   // what a copy must share with its source (statement)
+static const char* EQ_GROUPS = "lp par tol basis status sol ratlp ratsol";   // what a copy must share with its source (statement)
+
+static const char* INDEP_GROUPS_NOTOL = "lp par seed names basis status sol ratlp ratsol stat";
+static const char* TWIN_GROUPS_NOTOL = "lp par seed basis status sol ratlp ratsol stat";
 
 static Verdict runCopy(const Case& c)
 {
    Verdict v;
    Evidence& e = ev();
+   // known finding copy-shares-tolerances: the tolerance object is common to source and copy, so it is neither compared
+   // across the mutation nor changed through setRealParam on the mutated side
+   const bool tolShared = knownKey(K_TOL);
+   const char* indepGroups = tolShared ? INDEP_GROUPS_NOTOL : nullptr;
+   const char* twinGroups = tolShared ? TWIN_GROUPS_NOTOL : TWIN_GROUPS;
    Setup su = readSetup(c);
    const Rec* fr = c.find("fill");
    const Rec* gr = c.find("garbage");
@@ -1335,6 +1365,11 @@ static Verdict runCopy(const Case& c)
       {
          if(r.tag != "post") continue;
          step++;
+         if(tolShared && r.s(0) == "setreal")
+         {
+            e.count(std::string("excluded_known.") + K_TOL + ".setreal_skipped");
+            continue;
+         }
          std::string xx = applyOp(**X, r, 0);
          nPostOps++;
          e.count("post.op." + r.s(0));
@@ -1356,7 +1391,7 @@ static Verdict runCopy(const Case& c)
       else x0 = observe(**X);
       Obs y1 = observe(**Y);
       observe(*T);
-      std::string d = firstDiff(y0, y1, nullptr, "before", "after");
+      std::string d = firstDiff(y0, y1, indepGroups, "before", "after");
       if(!d.empty())
       {
          v.fail(std::string("independence: operations on the ") + xn + (destroy ? " and its destruction" : "") + " changed the " + yn + " in " + d);
@@ -1383,7 +1418,7 @@ static Verdict runCopy(const Case& c)
          if(isSolveOp(r, 0) || r.s(0) == "binv")
          {
             Obs oy = observe(**Y), ott = observe(*T);
-            std::string dd = firstDiff(oy, ott, TWIN_GROUPS, yn, "twin");
+            std::string dd = firstDiff(oy, ott, twinGroups, yn, "twin");
             if(!dd.empty())
             {
                v.fail(std::string("the ") + yn + " does not continue like a never-copied twin: after " + r.s(0) + " they differ in " + dd);
@@ -1397,7 +1432,7 @@ static Verdict runCopy(const Case& c)
       {
          // and the operations on the kept side did not reach the mutated side either
          Obs x1 = observe(**X);
-         std::string dd = firstDiff(x0, x1, nullptr, "before", "after");
+         std::string dd = firstDiff(x0, x1, indepGroups, "before", "after");
          if(!dd.empty())
          {
             v.fail(std::string("independence: operations on the ") + yn + " changed the " + xn + " in " + dd);
